@@ -39,6 +39,7 @@ type Native struct {
 	Params   string
 	Race     bool // build with the race detector (go1.26.8; the default toolchain has no race runtime)
 	ExtraEnv []string
+	BaseEnv  []string
 }
 
 func NewNative(P *Program) (*Native, error) {
@@ -128,6 +129,7 @@ func (n *Native) Run(pkg string, items []NativeItem, timeoutMs int) (map[string]
 			cmd.Dir = n.P.RepoDir // virtual harness package
 		}
 		cmd.Env = append(n.env, "VN_VECTORS="+vf, "VN_START="+strconv.Itoa(start), "VN_TIMEOUT_MS="+strconv.Itoa(timeoutMs), "VN_PARAMS="+n.Params, "VN_ASSERT_PREFIX="+n.P.AssertPrefix)
+		cmd.Env = append(cmd.Env, n.BaseEnv...)
 		cmd.Env = append(cmd.Env, n.ExtraEnv...)
 		var stdout, stderr bytes.Buffer
 		cmd.Stdout = &stdout
